@@ -211,6 +211,19 @@ where
         crate::props::c02::clone_consistency(&format!("DfsPred<{name}>"), || DfsPred::new(g, sources.iter().copied()), len)?;
     }
 
+    {
+        // the same sources through an iterator with an inexact size hint
+        let lazy = || sources.iter().copied().filter(|_| true);
+        let a: Vec<usize> = Dfs::new(g, sources.iter().copied()).collect();
+        let b: Vec<usize> = Dfs::new(g, lazy()).collect();
+        ensure!(a == b, "Dfs<{name}>: sources passed through `filter` give {b:?}, passed directly {a:?}");
+        let a: Vec<(usize, usize)> = DfsDist::new(g, sources.iter().copied()).collect();
+        let b: Vec<(usize, usize)> = DfsDist::new(g, lazy()).collect();
+        ensure!(a == b, "DfsDist<{name}>: sources passed through `filter` give {b:?}, passed directly {a:?}");
+        let a: Vec<(Option<usize>, usize)> = DfsPred::new(g, sources.iter().copied()).collect();
+        let b: Vec<(Option<usize>, usize)> = DfsPred::new(g, lazy()).collect();
+        ensure!(a == b, "DfsPred<{name}>: sources passed through `filter` give {b:?}, passed directly {a:?}");
+    }
     let mut it = Dfs::new(g, sources.iter().copied());
     let first: Vec<Item> = it
         .by_ref()
